@@ -8,7 +8,7 @@ VARIABLE hist
 Cmd(r) == hist' = Append(hist, r)
 SimInit == Init /\ hist = <<>>
 AnnTs(a) == IF TsFix /\ a.type = "register" THEN a.cts ELSE clock + 1
-SimStep ==
+SimStepJ ==
   \/ \E i \in Inst, sh \in Sh : Claim(i, sh) /\ Cmd([a |-> "Claim", i |-> i, sh |-> sh])
   \/ \E i \in Inst, sh \in Sh : Release(i, sh) /\ Cmd([a |-> "Release", i |-> i, sh |-> sh])
   \/ \E i \in Inst : \E a \in pend[i] : Announce(i, a) /\ Cmd([a |-> "Announce", i |-> i, sh |-> a.sh, type |-> a.type, ts |-> AnnTs(a)])
@@ -18,6 +18,9 @@ SimStep ==
   \/ \E s \in snaps : Merge(s) /\ Cmd([a |-> "Merge", i |-> s.from, j |-> s.to, val |-> s.id])
   \/ \E i \in Inst : Leave(i) /\ Cmd([a |-> "Leave", i |-> i])
   \/ \E e \in leaveEv : NotifyLeave(e) /\ Cmd([a |-> "NotifyLeave", i |-> e[1], j |-> e[2]])
+SimStep ==
+  \/ \E i \in Inst : Join(i) /\ Cmd([a |-> "Join", i |-> i, val |-> nsnaps])
+  \/ J(SimStepJ)
 Pad == ~ENABLED Next /\ Cmd([a |-> "Pad"]) /\ UNCHANGED vars
 SimNext == /\ Len(hist) < Depth
            /\ (SimStep \/ Pad)
